@@ -436,7 +436,8 @@ def run_session_case(case, workdir):
     if os.path.exists(path): os.remove(path)
     CTL.reset()
     reader = case.get('reader')          # a second, plain sqlite3 connection keeps a read transaction open: the session's COMMIT fails for real
-    db, T = make_db(path, **({'timeout': 0.05} if reader else {}))
+    ext = case.get('ext_writer')         # ANOTHER PROCESS holds BEGIN IMMEDIATE (a real cross-process write lock) during the first session
+    db, T = make_db(path, **({'timeout': 0.05} if (reader or ext) else {}))
     CTL.provider = db.provider
     db.provider.transaction_lock = OwnedLock()
     db.provider.pre_transaction_lock = OwnedLock()
@@ -454,8 +455,36 @@ def run_session_case(case, workdir):
     out = {'sessions': []}
     sessions = [[case['shape'], case['ops']]] + list(case.get('more', []))
 
+    helper = {}
+    def start_helper():
+        r1, w1 = os.pipe(); r2, w2 = os.pipe()
+        pid = os.fork()
+        if pid == 0:
+            try:
+                os.close(r1); os.close(w2)
+                c = sqlite3.connect(path, timeout=5.0, isolation_level=None)
+                c.execute('BEGIN IMMEDIATE'); c.execute('insert into T (v) values (777)')
+                os.write(w1, b'r')
+                os.read(r2, 1)                      # wait until the parent says go
+                c.execute('COMMIT'); c.close()
+                os.write(w1, b'c')
+                os._exit(0)
+            except BaseException:
+                os._exit(5)
+        os.close(w1); os.close(r2)
+        helper.update(pid=pid, r=r1, w=w2)
+        assert os.read(r1, 1) == b'r'
+    def finish_helper():
+        if helper.get('pid'):
+            os.write(helper['w'], b'g')
+            helper['committed'] = os.read(helper['r'], 1) == b'c'
+            _, st = os.waitpid(helper['pid'], 0)
+            helper['status'] = os.WEXITSTATUS(st) if os.WIFEXITED(st) else -1
+            helper['pid'] = None
+
     def in_thread():
         rcon = None
+        if ext: start_helper()
         if reader:
             rcon = sqlite3.connect(path)
             rcon.execute('BEGIN'); rcon.execute('select count(*) from T').fetchall()
@@ -464,12 +493,20 @@ def run_session_case(case, workdir):
             for si, (shape, ops) in enumerate(sessions):
                 if rcon is not None and reader == 'first' and si == 1:
                     rcon.rollback(); rcon.close(); rcon = None
+                if ext and si == 1: finish_helper()
+                if case.get('disconnect_after_first') and si == 1:
+                    try: db.disconnect(); out['disconnect'] = 'ok'
+                    except BaseException as e: out['disconnect'] = exc_enum(e)
+                    out['disconnect_calls'] = CTL.n
                 exc, outcomes = run_body(db, T, shape, ops)
                 out['sessions'].append({'exc': exc, 'outcomes': outcomes, 'lock_after': CTL.lock_state(), 'calls': CTL.n, 'lock_after_op': list(LOCK_AFTER_OP)})
         finally:
             CTL.armed = False
             if rcon is not None:
                 rcon.rollback(); rcon.close()
+            if ext:
+                finish_helper()
+                out['ext_writer'] = {'committed': helper.get('committed'), 'status': helper.get('status')}
         out['after'] = observe_after(db)
         out['pragmas'] = pool_pragmas(db)
         out['hung'] = bool(out['after']['lock'] or not out['after']['db2cache_empty'])
